@@ -40,8 +40,11 @@ func vfPublic(p string) (ok bool) {
 	switch {
 	case p == "/control/login", p == "/dns-query", strings.HasPrefix(p, "/dns-query/"):
 		return true
-	case strings.HasPrefix(p, "/login."), strings.HasPrefix(p, "/assets/"):
-		return !strings.Contains(p[1:], "/") || strings.HasPrefix(p, "/assets/")
+	case strings.HasPrefix(p, "/login."):
+		return !strings.Contains(p[1:], "/")
+	case strings.HasPrefix(p, "/assets/"):
+		// one level below /assets/, as the statement's "static assets"
+		return !strings.Contains(p[len("/assets/"):], "/")
 	case strings.HasPrefix(p, "/apple/") && strings.HasSuffix(p, ".mobileconfig"):
 		return true
 	}
@@ -264,7 +267,7 @@ func TestVFC11Unauthenticated(t *testing.T) {
 			spelling = "exact"
 		}
 
-		if vfPublic(target) || vfPublic(path.Clean(target)) {
+		if cp := path.Clean(target); vfPublic(cp) || (strings.HasSuffix(target, "/") && vfPublic(cp+"/")) {
 			// the spelling landed on a public resource (e.g. "/assets" + "/")
 			vfC11.Class("spelling_became_public")
 
@@ -313,6 +316,9 @@ func TestVFC11Unauthenticated(t *testing.T) {
 		vfC11.Class("method:" + shape.Method)
 		vfC11.Class("spelling:" + spelling)
 		vfC11.Class("verdict:" + strings.SplitN(verdict, ":", 2)[0])
+		if hops > 0 {
+			vfC11.Class("verdict:normalise_redirect")
+		}
 		mclass := "read"
 		if shape.Method == "POST" || shape.Method == "PUT" || shape.Method == "DELETE" || shape.Method == "PATCH" {
 			mclass = "write"
